@@ -77,7 +77,7 @@ func replaySkip(id string, w []byte) (bool, string) {
 }
 
 func skipFamily(r *eng.Run, id string) {
-	D := r.Pick(2, 4)
+	D := r.Pick(2, 3)
 	K := r.Pick(1, 2)
 	maxStates := r.Pick(200000, 3000000)
 	used := usedBuffer()
